@@ -11,6 +11,8 @@
 import SfProps.C07Bridge
 import SfProps.C07Adpcm
 import SfProps.C05Vox
+import SfProps.C01Dwvw
+import SfProps.C01AbsW
 namespace Sf.C07Bridge2
 open Sf Sf.AbsWrite Sf.AbsWriteBridge Sf.C07Bridge
 
@@ -154,6 +156,147 @@ theorem vox_session_accepted (f : Int → Int) (g : AbsWrite.Geom) (ty : Ty) (on
 
 end Vox
 
+/-! ## DWVW (AIFF; 12 / 16 / 24 bit; one channel) — a LOSSLESS block codec: the `roundtrip` disjunct of `BlockFacts.c01` -/
+
+section Dwvw
+open Sf.Dwvw Sf.C01Dwvw
+
+/-- the closed data region of a run: `dwvw_write_T` call by call, then `dwvw_close` (the twelve flush samples) -/
+def dwvwData (c : Dwvw.Cfg) (cv : Conv) (ty : Ty) (cs : List LCall) : List Byte :=
+  Dwvw.closeBytes c (cs.foldl (fun e k => Dwvw.writeCall c cv ty e k.xs) ({} : Dwvw.ESt))
+
+/-- C07 for DWVW: the data region is the one-call encoding of the concatenated converted samples -/
+theorem dwvwData_eq (c : Dwvw.Cfg) (cv : Conv) (ty : Ty) (cs : List LCall) :
+    dwvwData c cv ty cs = Dwvw.encodeAll c ((samples cs).map (Dwvw.toCodec cv ty)) := by
+  have h : cs.foldl (fun e k => Dwvw.writeCall c cv ty e k.xs) ({} : Dwvw.ESt) = (voxCalls (Dwvw.toCodec cv ty) cs).foldl (Dwvw.encodeData c) {} := by
+    unfold voxCalls; rw [List.foldl_map]; rfl
+  unfold dwvwData
+  rw [h, dwvw_partition_file, voxCalls_flatten]
+
+attribute [local irreducible] dwvwData
+
+/-- the job: the re-open count is what `dwvw_init` computes on the reference file (decode scan capped by the COMM chunk's count of
+    the frames written); the read-back is ONE decode call of that many frames (C06 `dwvw_read_calls`: any partition delivers the
+    same), the rest of the requested region keeps a fill value; `extra`: what follows the data region in the SSND chunk (pad byte) -/
+def dwvwJob (c : Dwvw.Cfg) (cv : Conv) (g : AbsWrite.Geom) (ty : Ty) (one split : List LCall) (hdr tail : Nat → List Byte)
+    (extra : List Byte) : BlockJob :=
+  { g := g, ty := ty, one := one, split := split, data := dwvwData c cv ty, hdr := hdr, tail := tail,
+    framesAt := fun _ => Dwvw.framesAtOpen c (dwvwData c cv ty one ++ extra) (some (samples one).length),
+    back := fun d n =>
+      (((Dwvw.decodeAll c (d ++ extra) (Dwvw.framesAtOpen c (d ++ extra) (some (samples one).length))).map (Dwvw.toCaller cv ty)) ++
+        List.replicate n 0).take n }
+
+/-- the codec code of a bit width -/
+def dwvwCode (c : Dwvw.Cfg) (codec : Nat) : Prop := (c.w = 12 ∧ codec = 0x40) ∨ (c.w = 16 ∧ codec = 0x41) ∨ (c.w = 24 ∧ codec = 0x42)
+
+/-- per sample: under the side condition of C01 (`sampleOk`: the low 16 − w / 32 − w bits zero) a short / int comes back bit-identical -/
+theorem dwvw_sample_exact (c : Dwvw.Cfg) (codec : Nat) (hc : dwvwCode c codec) (cv : Conv) (ty : Ty) (hty : ty = .s16 ∨ ty = .s32) (v : Int)
+    (hr : ty.inRange v) (hok : sampleOk codec ty v) :
+    Dwvw.toCaller cv ty (asr (Dwvw.toCodec cv ty v) c.shift * 2 ^ c.shift) = v := by
+  have hw : c.ok := by rcases hc with h | h | h <;> simp [Dwvw.Cfg.ok, h.1]
+  have hiw : intWidth codec = some c.w := by rcases hc with ⟨h1, h2⟩ | ⟨h1, h2⟩ | ⟨h1, h2⟩ <;> rw [h1, h2] <;> rfl
+  obtain ⟨lz, hlz, hcell⟩ := hok
+  rcases hty with rfl | rfl
+  · simp only [losslessLow, hiw, Option.map_some, Option.some.injEq] at hlz
+    subst hlz
+    have h1 := hcell (wrapU 16 v) (by simp [cellOf])
+    have h2 := (C01AbsW.side_condition_matches_model ⟨c.w, false, false⟩ codec v).1.1 h1
+    apply dwvw_short_exact c hw cv v hr
+    intro h12
+    rcases h2 with h2 | h2
+    · simp only at h2; omega
+    · simp only [h12] at h2; exact h2
+  · simp only [losslessLow, hiw, Option.map_some, Option.some.injEq] at hlz
+    subst hlz
+    have h1 := hcell (wrapU 32 v) (by simp [cellOf])
+    have h2 := (C01AbsW.side_condition_matches_model ⟨c.w, false, false⟩ codec v).2.1 h1
+    have hs : (32 - c.w) = c.shift := rfl
+    have hmod : v % 2 ^ c.shift = 0 := by
+      rcases h2 with h2 | h2
+      · simp only at h2; rcases hw with h | h | h <;> omega
+      · simpa [hs] using h2
+    show asr v c.shift * 2 ^ c.shift = v
+    have hv : v = v / 2 ^ c.shift * 2 ^ c.shift := (Int.ediv_mul_cancel (Int.dvd_of_emod_eq_zero hmod)).symm
+    have := Sf.Dwvw.Proofs.quant_exact c.shift (v / 2 ^ c.shift)
+    rw [← hv] at this
+    exact this
+
+/-- DWVW in AIFF: every job is accepted — C07 (`dwvw_partition_file`), C04 (F = N exactly: `dwvw_aiff_frames_exact`), and the C01
+    clause through the ROUNDTRIP fact for short / int callers (`dwvw_roundtrip`: all wrap-around cases of the delta arithmetic).
+    `hx`: the converted samples are 32-bit values (always true for short / int callers: `dwvw_range_int`). -/
+theorem dwvw_session_accepted (c : Dwvw.Cfg) (cv : Conv) (g : AbsWrite.Geom) (ty : Ty) (one split : List LCall)
+    (hdr tail : Nat → List Byte) (extra : List Byte)
+    (hch : g.ch = 1) (hcode : dwvwCode c g.codec) (hrate : rateOk g.major g.sr (g.sr : Int) = true)
+    (h1 : ∀ c ∈ one, c.good 1) (h2 : ∀ c ∈ split, c.good 1) (hs : samples split = samples one)
+    (hr : ∀ v ∈ samples one, ty.inRange v)
+    (hx : ∀ v ∈ samples one, -2 ^ 31 ≤ Dwvw.toCodec cv ty v ∧ Dwvw.toCodec cv ty v < 2 ^ 31) :
+    accepted (dwvwJob c cv g ty one split hdr tail extra).pred.record = true := by
+  apply block_session_accepted
+  have hw : c.ok := by rcases hcode with h | h | h <;> simp [Dwvw.Cfg.ok, h.1]
+  have hB : g.block = 1 := by
+    unfold Geom.block Geometry.blockFrames
+    rcases hcode with ⟨_, h⟩ | ⟨_, h⟩ | ⟨_, h⟩ <;> simp [h, Geometry.IMA, Geometry.MS, Geometry.GSM, Geometry.VOX, Geometry.NMS, Geometry.G72X]
+  have hxs : ∀ x ∈ (samples one).map (Dwvw.toCodec cv ty), -2 ^ 31 ≤ x ∧ x < 2 ^ 31 := by
+    intro x hxm; obtain ⟨v, hv, rfl⟩ := List.mem_map.1 hxm; exact hx v hv
+  have hF : Dwvw.framesAtOpen c (dwvwData c cv ty one ++ extra) (some (samples one).length) = (samples one).length := by
+    have := dwvw_aiff_frames_exact c hw _ hxs extra
+    rw [List.length_map] at this
+    rw [dwvwData_eq]; exact this
+  refine { chpos := by show 0 < g.ch; rw [hch]; decide, block := by show 1 ≤ g.block; rw [hB],
+           calls1 := by show ∀ c ∈ one, c.good g.ch; rw [hch]; exact h1,
+           calls2 := by show ∀ c ∈ split, c.good g.ch; rw [hch]; exact h2,
+           same := hs,
+           partition := fun _ => by show dwvwData c cv ty split = dwvwData c cv ty one; rw [dwvwData_eq, dwvwData_eq, hs],
+           framesLo := by
+             show framesOf g.ch one ≤ Dwvw.framesAtOpen c (dwvwData c cv ty one ++ extra) (some (samples one).length)
+             rw [hch, framesOf_one, hF],
+           framesHi := by
+             show Dwvw.framesAtOpen c (dwvwData c cv ty one ++ extra) (some (samples one).length) < framesOf g.ch one + g.block
+             rw [hch, framesOf_one, hF, hB]; omega,
+           backLen := fun d n => by
+             show (List.take n _).length = n
+             rw [List.length_take, List.length_append, List.length_replicate]; omega,
+           rate := hrate, c01 := ?_ }
+  by_cases hty : ty = .s16 ∨ ty = .s32
+  · right
+    intro hok
+    show (List.take _ (List.map (Dwvw.toCaller cv ty) (Dwvw.decodeAll c (dwvwData c cv ty one ++ extra)
+      (Dwvw.framesAtOpen c (dwvwData c cv ty one ++ extra) (some (samples one).length))) ++ List.replicate _ 0)).take (samples one).length = samples one
+    rw [hF]
+    have hdec := dwvw_roundtrip c hw _ hxs extra
+    rw [List.length_map, ← dwvwData_eq] at hdec
+    rw [hdec, List.map_map]
+    have hid : List.map (Dwvw.toCaller cv ty ∘ fun p => asr p c.shift * 2 ^ c.shift) (List.map (Dwvw.toCodec cv ty) (samples one)) = samples one := by
+      rw [List.map_map]
+      conv => rhs; rw [← List.map_id (samples one)]
+      apply List.map_congr_left
+      intro v hv
+      exact dwvw_sample_exact c g.codec hcode cv ty hty v (hr v hv) (hok v hv)
+    rw [hid, List.take_take, List.take_append_of_le_length (by omega)]
+    rw [Nat.min_eq_left (by
+      have := samples_length g.ch one (by rw [hch]; exact h1)
+      rw [hch] at this; rw [this]
+      show framesOf 1 one * 1 ≤ (framesOf g.ch one + g.block + g.pad + 8) * g.ch
+      rw [hch]; omega)]
+    exact List.take_length
+  · left
+    show losslessLow g.codec ty = none
+    rcases hcode with ⟨_, h⟩ | ⟨_, h⟩ | ⟨_, h⟩ <;> rw [h] <;> cases ty <;> simp_all [losslessLow]
+
+/-- `hx` for the integer caller types: a short is shifted into the top half and wraps into 32 bits by construction, an int is itself -/
+theorem dwvw_range_int (cv : Conv) (ty : Ty) (hty : ty = .s16 ∨ ty = .s32) (v : Int) (hr : ty.inRange v) :
+    -2 ^ 31 ≤ Dwvw.toCodec cv ty v ∧ Dwvw.toCodec cv ty v < 2 ^ 31 := by
+  rcases hty with rfl | rfl
+  · obtain ⟨a, b⟩ := hr
+    simp only [Dwvw.toCodec, wrapS]
+    norm_num
+    omega
+  · obtain ⟨a, b⟩ := hr
+    simp only [Dwvw.toCodec]
+    omega
+
+end Dwvw
+
 /-! ## non-vacuity -/
 
 def exOne : List LCall := [⟨true, [1000, -2000, 30000, 4, 5, -6], 3⟩]
@@ -179,5 +322,20 @@ def exJobV : BlockJob := voxJob id exGv .s16 exOneV exSplitV (fun _ => []) (fun 
 example : exGv.ch = 1 ∧ exGv.codec = 0x21 ∧ rateOk exGv.major exGv.sr (exGv.sr : Int) = true ∧
     (∀ c ∈ exOneV, c.good 1) ∧ (∀ c ∈ exSplitV, c.good 1) ∧ samples exSplitV = samples exOneV ∧
     exJobV.pred.record.info.frames = 4 ∧ exJobV.pred.record.one.bytes.size = 2 ∧ accepted exJobV.pred.record = true := by decide +kernel
+
+def exGd : AbsWrite.Geom := { word := 0x00020040, ch := 1, sr := 44100 }
+def exOneD : List LCall := [⟨true, [16, -32, 32752], 3⟩]
+def exSplitD : List LCall := [⟨true, [16], 1⟩, ⟨false, [-32, 32752], 2⟩]
+def exJobD : BlockJob := dwvwJob ⟨12⟩ {} exGd .s16 exOneD exSplitD (fun _ => []) (fun _ => []) []
+
+instance (c : Dwvw.Cfg) (codec : Nat) : Decidable (dwvwCode c codec) := by unfold dwvwCode; infer_instance
+
+/-- DWVW_12 in AIFF, shorts whose low four bits are zero (the side condition of C01 holds: the record is LOSSLESS and the round trip is
+    judged): hypotheses, and the record evaluated — F = N = 3, the read-back begins with the samples written, accepted -/
+example : exGd.ch = 1 ∧ dwvwCode ⟨12⟩ exGd.codec ∧ rateOk exGd.major exGd.sr (exGd.sr : Int) = true ∧
+    (∀ c ∈ exOneD, c.good 1) ∧ (∀ c ∈ exSplitD, c.good 1) ∧ samples exSplitD = samples exOneD ∧
+    (∀ v ∈ samples exOneD, Ty.s16.inRange v) ∧
+    losslessFor exGd .s16 (written exGd.ch exJobD.pred.record.one.calls) = true ∧
+    exJobD.pred.record.info.frames = 3 ∧ exJobD.pred.rbData.take 3 = [16, -32, 32752] ∧ accepted exJobD.pred.record = true := by decide +kernel
 
 end Sf.C07Bridge2
